@@ -221,8 +221,19 @@ RECURSIVE AllocNode(_, _, _, _, _)
 \* allocate amount a to node n; budgets below n follow the *snapshot* weights
 AllocNode(C, r, n, a, derived) ==
   IF IsSec(C, n) THEN
-     IF Bad(a) THEN [r EXCEPT !.chk = Append(@, <<"C05.sizing", "skip", n, a, Zero>>)] ELSE
-     IF IsZero(a) THEN r ELSE    \* a zero amount does nothing
+     IF Bad(a) THEN  \* the amount is not representable: follow the log, judge nothing
+        LET q  == IF ~r.auto /\ HeadIs(r, n) THEN HeadQ(r, n) ELSE Zero
+            r1 == IF ~r.auto /\ HeadIs(r, n) THEN Pop(r, n) ELSE r
+        IN  [r1 EXCEPT !.st = TradeSec(C, r.st, n, q, NaN),
+                       !.chk = Append(@, <<"C05.sizing", "skip", n, a, q>>)] ELSE
+     IF IsZero(a) THEN           \* a zero amount does nothing ...
+        IF ~r.auto /\ derived /\ HeadIs(r, n)
+        THEN \* ... but a computed amount that is zero only in exact arithmetic is
+             \* not recognised as zero by the code (known finding K8)
+             [Pop(r, n) EXCEPT !.st  = TradeSec(C, r.st, n, HeadQ(r, n), NaN),
+                               !.chk = Append(@, <<"C05.sizing", "K8", n, a, HeadQ(r, n)>>)]
+        ELSE r
+     ELSE
      LET q  == IF r.auto THEN MaxQ(C, r.st, n, a)
                ELSE IF HeadIs(r, n) THEN HeadQ(r, n) ELSE Zero
          r1 == IF ~r.auto /\ HeadIs(r, n) THEN Pop(r, n) ELSE r
@@ -369,11 +380,18 @@ RebalanceAmount(C, st, s, w, c, base) ==
   LET b == IF IsNaN(base) THEN (IF C.fi[s] THEN st.snotl[s] ELSE st.sval[s]) ELSE base
   IN  IF C.fi[s] THEN RSub(RMul(w, b), RMul(st.swgt[c], st.snotl[s]))
       ELSE RSub(RMul(w, b), RMul(st.swgt[c], st.sval[s]))
+\* the verdict on the rebalanced child itself speaks about the *amount* the
+\* rebalance chose (C06), not about the sizing rule (C05, which is judged on
+\* direct allocations and on push-downs)
+Relabel(r0, r1, c) ==
+  [r1 EXCEPT !.chk = [i \in 1..Len(@) |->
+      IF i > Len(r0.chk) /\ @[i][1] = "C05.sizing" /\ @[i][3] = c
+      THEN <<"C06.rebalance", @[i][2], @[i][3], @[i][4], @[i][5]>> ELSE @[i]]]
 RebalanceOp(C, r, s, w, c, base, upd) ==
   IF IsZero(w) THEN CloseOp(C, r, s, c, upd) ELSE
   LET amt == RebalanceAmount(C, r.st, s, w, c, base)
   IN  IF C.fi[s] /\ C.fi[c] THEN Finish(C, TransactNode(C, r, c, amt, NaN), upd)
-      ELSE Finish(C, AllocNode(C, r, c, amt, TRUE), upd)
+      ELSE Finish(C, Relabel(r, AllocNode(C, r, c, amt, TRUE), c), upd)
 
 (***************************************************************************)
 (* C10 - the enumerated ill-formed situations, as predicates on (state,    *)
